@@ -552,7 +552,6 @@ fn gen(args: &[String]) {
         }
         for j in 0..texts {
             let req = gen_req(&mut r, spec.num_glyphs, spec.feat.is_some());
-            let t0 = std::time::Instant::now();
             let res = match shape_guarded(&bytes, &req, limit_ms) {
                 Some(r) => r,
                 None => {
@@ -564,7 +563,6 @@ fn gen(args: &[String]) {
                     continue;
                 }
             };
-            let us = t0.elapsed().as_micros();
             shapes += 1;
             match &res {
                 Ok(out) => {
@@ -583,9 +581,7 @@ fn gen(args: &[String]) {
                                 }
                             }
                         }
-                        // a shape that took long built a long intermediate buffer (e.g. inserted glyphs that a later
-                        // subtable deleted): as costly for the list-based model as a long output
-                        if out.len() > BIG || us > 2500 {
+                        if out.len() > BIG {
                             println!("case {} {} {} uf={} -> big {} {}", i, j, fmt_req(&req), fmt_uf(&req), out.len(), digest(out));
                         } else {
                             println!("case {} {} {} uf={} -> ok {}", i, j, fmt_req(&req), fmt_uf(&req), fmt_out(out));
